@@ -79,7 +79,10 @@ def tree(draw):
         files[draw(st.sampled_from(['.hidden_%s', '.%s.pel', '[x]_%s', 'st*r_%s', 'q?_%s'])) % tid] = \
             draw(st.one_of(random_bytes, st.just(b'')))
     return {'files': files, 'target': target, 'n_pels': n,
-            'dirname': draw(st.sampled_from(['logs', 'logs', 'logs[1]', 'lo*gs', 'log?', '.logs', 'lo gs']))}
+            'dirname': draw(st.sampled_from(['logs', 'logs', 'logs[1]', 'lo*gs', 'log?', '.logs', 'lo gs'])),
+            # how the directory is spelled on the command line
+            'spelling': draw(st.sampled_from(['plain', 'plain', 'trailing-slash', 'dot', 'dotdot', 'relative',
+                                              'symlink-dotdot', 'symlink']))}
 
 
 @st.composite
@@ -125,17 +128,37 @@ def diff(before, after):
 def tree_snapshots(case, note):
     t, c = case
     with D.TempDir('c11') as top:
-        d = os.path.join(top, t.get('dirname', 'logs'))
+        # the real directory lives under <top>/real/; a decoy of the same name directly under <top> is what a
+        # purely textual normalisation of  <top>/link/../<name>  would point at (link -> real/sub)
+        real_parent = os.path.join(top, 'real')
+        os.makedirs(os.path.join(real_parent, 'sub'))
+        os.symlink(os.path.join(real_parent, 'sub'), os.path.join(top, 'link'))
+        d = os.path.join(real_parent, t.get('dirname', 'logs'))
         os.makedirs(d)
+        os.symlink(d, os.path.join(top, 'direct-link'))
+        decoy = os.path.join(top, t.get('dirname', 'logs'))
+        os.makedirs(decoy, exist_ok=True)
+        for nm in ('decoy_%08X' % t['target'], 'decoy_other'):
+            with open(os.path.join(decoy, nm), 'wb') as fh:
+                fh.write(b'decoy')
+        sp = t.get('spelling', 'plain')
+        dname = t.get('dirname', 'logs')
+        d_arg, run_cwd = {
+            'plain': (d, None), 'trailing-slash': (d + '/', None), 'dot': (os.path.join(d, '.'), None),
+            'dotdot': (os.path.join(real_parent, 'sub', '..', dname), None),
+            'relative': (os.path.join('real', dname), top),
+            'symlink-dotdot': (os.path.join(top, 'link', '..', dname), None),
+            'symlink': (os.path.join(top, 'direct-link'), None)}[sp]
         files = {k.rstrip('/'): v for k, v in t['files'].items()}
         D.write_files(d, files)
         # sibling directories that a pattern-interpreted path could reach; they must never be touched
         for sib in ('logs1', 'logs', 'logx', 'loXgs'):
-            sp = os.path.join(top, sib)
-            if sp != d:
-                os.makedirs(sp, exist_ok=True)
-                with open(os.path.join(sp, 'sibling_%08X' % t['target']), 'wb') as fh:
-                    fh.write(b'sibling')
+            for parent in (top, real_parent):
+                spath = os.path.join(parent, sib)
+                if spath != d:
+                    os.makedirs(spath, exist_ok=True)
+                    with open(os.path.join(spath, 'sibling_%08X' % t['target']), 'wb') as fh:
+                        fh.write(b'sibling')
         outside = os.path.join(top, 'outside')
         os.makedirs(outside)
         exfile = os.path.join(top, 'exclude.txt')
@@ -143,7 +166,7 @@ def tree_snapshots(case, note):
             f.write('BD8D1234\n')
         top_files = sorted(k for k, v in files.items() if v is not None and '/' not in k)
         tid = '%08X' % t['target']
-        argv = ['-p', d]
+        argv = ['-p', d_arg]
         kind = c['kind']
         if kind == 'read':
             m = c['mode']
@@ -186,8 +209,9 @@ def tree_snapshots(case, note):
         else:
             argv.append('-D')
         before = D.snapshot(top)
-        r = cli.forked(argv)
+        r = cli.forked(argv, cwd=run_cwd)
         after = D.snapshot(top)
+        note.label('path-' + sp)
         removed, created, modified = diff(before, after)
         what = 'peltool ' + ' '.join(a.replace(top, '<top>') for a in argv)
         if 'Traceback (most recent call last)' in r.err:
